@@ -508,15 +508,61 @@ func (p *Prog) segClass(v ssa.Value, isPath func(ssa.Value) bool, depth int) str
 		}
 	case *ssa.Phi:
 		cls := ""
-		for _, e := range x.Edges {
+		whole := false
+		for i, e := range x.Edges {
 			c := p.segClass(e, isPath, depth)
 			if c == "empty" {
 				continue
+			}
+			if c == "path" {
+				// a path without a separator is its own last segment: the edge must be taken only where the search for the last
+				// separator failed
+				pred := x.Block().Preds[i]
+				gs := dominatingGuards(pred)
+				if ifi, ok := pred.Instrs[len(pred.Instrs)-1].(*ssa.If); ok {
+					for si, sc := range pred.Succs {
+						if sc == x.Block() && pred.Succs[1-si] != x.Block() {
+							gs = append(gs, guard{ifi.Cond, si == 0})
+						}
+					}
+				}
+				noSep := false
+				for _, g := range gs {
+					ng := normGuard(g)
+					bo, ok := ng.Cond.(*ssa.BinOp)
+					if !ok || !idxCall(bo.X, "strings.LastIndex", "strings.LastIndexByte", "strings.Index", "strings.IndexByte") {
+						continue
+					}
+					k, isK := constInt(bo.Y)
+					if !isK {
+						continue
+					}
+					switch {
+					case bo.Op == token.LSS && k == 0 && ng.Pol, bo.Op == token.GEQ && k == 0 && !ng.Pol,
+						bo.Op == token.EQL && k == -1 && ng.Pol, bo.Op == token.NEQ && k == -1 && !ng.Pol,
+						bo.Op == token.GTR && k == -1 && !ng.Pol, bo.Op == token.LEQ && k == -1 && ng.Pol:
+						noSep = true
+					}
+				}
+				if noSep {
+					whole = true
+					continue
+				}
 			}
 			if c == "" || (cls != "" && cls != c) {
 				return ""
 			}
 			cls = c
+		}
+		if whole {
+			switch cls {
+			case "last", "first":
+				return cls // no separator: the whole path is its first and its last segment
+			case "":
+				return "path"
+			default:
+				return ""
+			}
 		}
 		return cls
 	case *ssa.Slice:
@@ -3590,4 +3636,238 @@ func (p *Prog) scannerStepMethod(fn *ssa.Function) *ssa.Function {
 		}
 	})
 	return out
+}
+
+// ---- ROOT.ownkey (C02, C03, C04, C16) ------------------------------------------------------------------------------------------------------
+
+// ruleRootOwnKey: a Map with exactly one member and no root tag given is encoded with that member's key as the root element; the
+// only member values for which the encoders may hang the whole Map from DefaultRootTag instead are lists (a list has no element
+// of its own to be the root). Stated over the code: inside the single-iteration loop over the receiver, every place that hands the
+// *whole receiver* to the element encoder as the value — directly, or as the incoming value of a phi that reaches the call — is
+// dominated by a successful `[]interface{}` type test of the loop's member value. A wrap decided by anything else (a failed test
+// for a map, a test of the key) puts an element into the document that the decoded input did not have.
+func ruleRootOwnKey(p *Prog, r *Report) {
+	const rule = "ROOT.ownkey"
+	for _, n := range []string{"mxj.Map.Xml", "mxj.Map.XmlIndent", "mxj.MapSeq.Xml", "mxj.MapSeq.XmlIndent"} {
+		fn := p.Fn(n)
+		if fn == nil {
+			r.Anchor(rule, n)
+			continue
+		}
+		if len(fn.Params) == 0 {
+			continue
+		}
+		recv := ssa.Value(fn.Params[0])
+		isRecv := func(v ssa.Value) bool {
+			for i := 0; i < 6; i++ {
+				switch x := v.(type) {
+				case *ssa.MakeInterface:
+					v = x.X
+					continue
+				case *ssa.ChangeType:
+					v = x.X
+					continue
+				case *ssa.Convert:
+					v = x.X
+					continue
+				}
+				break
+			}
+			return v == recv
+		}
+		cz := p.canonFor(fn)
+		type site struct {
+			blk  *ssa.BasicBlock
+			edge int // successor index of blk taken (-1: the block itself)
+			pos  string
+		}
+		var sites []site
+		nCalls := 0
+		seenPhi := map[*ssa.Phi]bool{}
+		var fromPhi func(ph *ssa.Phi, pos string)
+		fromPhi = func(ph *ssa.Phi, pos string) {
+			if seenPhi[ph] {
+				return
+			}
+			seenPhi[ph] = true
+			for i, e := range ph.Edges {
+				pred := ph.Block().Preds[i]
+				if isRecv(e) {
+					idx := -1
+					for si, sc := range pred.Succs {
+						if sc == ph.Block() {
+							idx = si
+						}
+					}
+					sites = append(sites, site{pred, idx, pos})
+				} else if q, ok := e.(*ssa.Phi); ok {
+					fromPhi(q, pos)
+				}
+			}
+		}
+		eachInstr(fn, func(b *ssa.BasicBlock, in ssa.Instruction) {
+			c, ok := in.(*ssa.Call)
+			if !ok {
+				return
+			}
+			g := staticCallee(&c.Call)
+			if g == nil || !p.InModule(g) || p.Exported(g) {
+				return
+			}
+			sink := false
+			for _, a := range c.Call.Args {
+				if isOutputSinkType(a.Type()) {
+					sink = true
+				}
+			}
+			if !sink {
+				return
+			}
+			nCalls++
+			for _, a := range c.Call.Args {
+				if !types.IsInterface(a.Type()) {
+					continue
+				}
+				if isRecv(a) {
+					sites = append(sites, site{b, -1, p.Pos(c.Pos())})
+				} else if ph, ok := a.(*ssa.Phi); ok {
+					fromPhi(ph, p.Pos(c.Pos()))
+				} else if mi, ok := a.(*ssa.MakeInterface); ok {
+					if ph, ok := mi.X.(*ssa.Phi); ok {
+						fromPhi(ph, p.Pos(c.Pos()))
+					}
+				}
+			}
+		})
+		if nCalls == 0 {
+			r.Assume(rule, n, "the whole Map becomes the root's content only for a list member", p.Pos(fn.Pos()), "no call of an element encoder in this function: the root is chosen elsewhere, the clause is not decided here")
+			continue
+		}
+		bad, assumed := "", ""
+		nIn := 0
+		for _, l := range findMapLoops(fn) {
+			if l.next == nil || !isRecv(l.src) || !p.lenIsOneGuard(l) {
+				continue
+			}
+			// the member value of the loop
+			var member []ssa.Value
+			for _, ref := range *l.next.Referrers() {
+				if ex, ok := ref.(*ssa.Extract); ok && ex.Index == 2 {
+					member = append(member, ex)
+				}
+			}
+			isMember := func(v ssa.Value) bool {
+				for _, mv := range member {
+					if v == mv || cz.of(v) == cz.of(mv) {
+						return true
+					}
+				}
+				return false
+			}
+			// the region entered with a member in hand: everything dominated by the header's edge into the body (a `goto done`
+			// after the call leaves the natural loop but not this region)
+			inRegion := func(b *ssa.BasicBlock) bool {
+				if b == l.header {
+					return false
+				}
+				for si, sc := range l.header.Succs {
+					if l.body[sc] && sc != l.header && edgeDominates(l.header, si, b) {
+						return true
+					}
+				}
+				return false
+			}
+			for _, s := range sites {
+				if !inRegion(s.blk) {
+					continue
+				}
+				nIn++
+				opaque := false
+				gs := dominatingGuards(s.blk)
+				if s.edge >= 0 {
+					if ifi, ok := s.blk.Instrs[len(s.blk.Instrs)-1].(*ssa.If); ok {
+						gs = append(gs, guard{ifi.Cond, s.edge == 0})
+					}
+				}
+				listOK := false
+				for _, g := range expandAndGuards(gs) {
+					ng := normGuard(g)
+					if c, ok := ng.Cond.(*ssa.Call); ok {
+						// a predicate of the member value: true only for lists?
+						if h := staticCallee(&c.Call); h != nil && p.InModule(h) && len(h.Blocks) > 0 {
+							for ai, a := range c.Call.Args {
+								if isMember(a) && ai < len(h.Params) {
+									if ng.Pol && predicateImpliesList(h, h.Params[ai]) {
+										listOK = true
+									} else {
+										opaque = true
+									}
+								}
+							}
+						}
+						continue
+					}
+					ex, ok := ng.Cond.(*ssa.Extract)
+					if !ok || ex.Index != 1 || !ng.Pol {
+						continue
+					}
+					ta, ok := ex.Tuple.(*ssa.TypeAssert)
+					if !ok || !isMember(ta.X) {
+						continue
+					}
+					if sl, ok := ta.AssertedType.Underlying().(*types.Slice); ok && types.IsInterface(sl.Elem()) {
+						listOK = true
+					}
+				}
+				if !listOK && opaque {
+					assumed = s.pos
+					continue
+				}
+				if !listOK && bad == "" {
+					bad = s.pos
+				}
+			}
+		}
+		if bad != "" {
+			r.Bad(rule, n, "the whole Map becomes the root's content only for a list member", bad, "inside the loop over the single member the element encoder call at "+bad+" receives the whole Map (wrapped in a default root) on a path that has not established that the member value is a []interface{}: a document whose root is not a list gets an extra element")
+		} else if assumed != "" {
+			r.Assume(rule, n, "the whole Map becomes the root's content only for a list member", assumed, "the wrap at "+assumed+" is decided by a predicate function of the member value whose true result could not be tied to a []interface{} test; assumed to hold for lists only")
+		} else {
+			r.OK(rule, n, "the whole Map becomes the root's content only for a list member", p.Pos(fn.Pos()), fmt.Sprintf("%d element encoder call(s), %d wrap site(s) inside the single-member loop, each dominated by a successful []interface{} test of the member value", nCalls, nIn))
+		}
+	}
+}
+
+// predicateImpliesList: every return of h that may yield true is dominated by a successful []interface{} test of prm.
+func predicateImpliesList(h *ssa.Function, prm *ssa.Parameter) bool {
+	found := false
+	for _, b := range h.Blocks {
+		ret, ok := b.Instrs[len(b.Instrs)-1].(*ssa.Return)
+		if !ok || len(ret.Results) != 1 {
+			continue
+		}
+		if v, isC := constBool(ret.Results[0]); isC && !v {
+			continue
+		}
+		okList := false
+		for _, g := range expandAndGuards(dominatingGuards(b)) {
+			ng := normGuard(g)
+			ex, ok := ng.Cond.(*ssa.Extract)
+			if !ok || ex.Index != 1 || !ng.Pol {
+				continue
+			}
+			ta, ok := ex.Tuple.(*ssa.TypeAssert)
+			if !ok || ta.X != ssa.Value(prm) {
+				continue
+			}
+			if sl, ok := ta.AssertedType.Underlying().(*types.Slice); ok && types.IsInterface(sl.Elem()) {
+				okList = true
+			}
+		}
+		if !okList {
+			return false
+		}
+		found = true
+	}
+	return found
 }
